@@ -87,6 +87,8 @@ def cycles(tier, rng):
             execs.append(base[:1] + ["setctrl 0 1024 %d 2" % m1] + base[1:])
     for p in pts:
         execs.append(gen.encode_exec(p))
+        enc = gen.encode_exec(p)
+        execs.append(enc[:2] + ["ctrl 0 1", "ctrl 0 2"] + enc[2:])
         sub = rng.sample(range(p.n), min(p.n, p.k + (2 if p.codec == 3 else 0)))
         execs.append(gen.decode_exec(p, sub, api="recv", finish=True, probe="end"))
         execs.append(gen.decode_exec(p, sorted(rng.sample(range(p.n), p.k)), api="setavail", finish=True, probe="end", cb="buf"))
